@@ -135,6 +135,10 @@ def lazy_parallel_map(
 
         def terminate(ex: pathos.multiprocessing.ProcessPool, q):
             ex.terminate()
+            # pathos caches the pool globally; drop the terminated pool,
+            # otherwise the next ProcessPool(max_workers) gets it back and
+            # fails with "Pool not running".
+            ex.clear()
             # Cancel doesn't work for pathos. Don't know why.
             # try:
             #     while True:
